@@ -30,6 +30,7 @@ def seed_documents(rng, n):
     evs.append(G.event_xml('ta', '/s/', [('p', 'x y')]))
     evs.append(G.event_xml('parent', '/s/', [('k', 'abc')]))
     docs.append(('base', G.document([OL.onto_xml(b)] + evs)))
+    docs.append(('no-ontology', G.document([])))
     docs.append(('two-ontologies', G.document([OL.onto_xml(b), evs[1], OL.onto_xml(OL.ONTO(object_types=[OL.OT('zz', 'number:int')], sources=[OL.SOURCE('/z/')])), evs[2]])))
     # a later ontology element that edits the first one: every edit of the catalogue (acceptable or not), with and without a new version
     for e in OL.edit_catalogue():
@@ -121,7 +122,7 @@ def mutate(rng, data):
         if k == 5:
             return 'delete-attribute:' + name.decode(), data[:m.start()] + data[m.end():]
         if k == 6:
-            new = rng.choice([b'x', b'', b'-1', b'1.5', b'99999999999999999999', b'true', b'\xc3\xa9', b' ', b'a' * 300, b'0', b'3.x.0', b'3.1.0', b'4.0.0', b'3.0'])
+            new = rng.choice([b'x', b'', b'-1', b'1.5', b'99999999999999999999', b'true', b'\xc3\xa9', b' ', b'a' * 300, b'0', b'3.x.0', b'3.1.0', b'4.0.0', b'3.0', b'.0.0', b'3..0', b'3.0.', b'..'])
             return 'retype-attribute:' + name.decode(), data[:m.start(2)] + new + data[m.end(2):]
         if k == 7:
             if rng.random() < 0.5:
@@ -394,12 +395,12 @@ def main(argv):
                     (res['outcome'], len(res['delivered'])) != (res2['outcome'], len(res2['delivered'])):
                 ck.dist('pull-push-differ')
         # systematic single faults: every attribute occurrence deleted / retyped, every element deleted / duplicated
-        if name in ('base', 'two-ontologies', 'generated-0') or ck.thorough():
+        if name in ('base', 'two-ontologies', 'generated-0', 'no-ontology') or ck.thorough():
             sweep = []
             for m in ATTR_RE.finditer(data):
                 sweep.append(('delete-attribute:' + m.group(1).decode(), data[:m.start()] + data[m.end():]))
                 sweep.append(('add-unknown-attribute', data[:m.end()] + b' zz-unknown="1"' + data[m.end():]))
-                for new in (b'x', b'', b'-1', b'1.5', b'99999999999999999999', b'undefined-thing', b'3.x.0', b'a b', b'\xc3\xa9'):
+                for new in (b'x', b'', b'-1', b'1.5', b'99999999999999999999', b'undefined-thing', b'3.x.0', b'.0.0', b'3..0', b'a b', b'\xc3\xa9'):
                     sweep.append(('retype-attribute:' + m.group(1).decode(), data[:m.start(2)] + new + data[m.end(2):]))
             for st, en, tag in element_spans(data):
                 sweep.append(('delete-element:' + tag, data[:st] + data[en:]))
